@@ -5,6 +5,7 @@ import (
 	"reflect"
 	"sync"
 
+	"github.com/philpearl/plenc/internal/verifhook"
 	"github.com/philpearl/plenc/plenccodec"
 	"github.com/philpearl/plenc/plenccore"
 )
@@ -97,6 +98,7 @@ func (p *Plenc) CodecForTypeWithTag(typ reflect.Type, tag string) (plenccodec.Co
 // CodecForTypeRegistry builds a new codec for the requested type, consulting
 // registry for any existing codecs needed
 func (p *Plenc) CodecForTypeRegistry(registry plenccodec.CodecRegistry, typ reflect.Type, tag string) (plenccodec.Codec, error) {
+	verifhook.Yield("load")
 	c := registry.Load(typ, tag)
 	if c != nil {
 		return c, nil
@@ -111,6 +113,7 @@ func (p *Plenc) CodecForTypeRegistry(registry plenccodec.CodecRegistry, typ refl
 			return nil, fmt.Errorf("pointers to maps are not supported (%s)", typ)
 		}
 		subc, err := p.CodecForTypeRegistry(registry, typ.Elem(), tag)
+		verifhook.Yield("wrap")
 		if err != nil {
 			return nil, err
 		}
@@ -133,6 +136,7 @@ func (p *Plenc) CodecForTypeRegistry(registry plenccodec.CodecRegistry, typ refl
 		// We assume for now that any tag here will be selecting the array
 		// treatment, not the registry for the underlying type.
 		subc, err := p.CodecForTypeRegistry(registry, subt, "")
+		verifhook.Yield("wrap")
 		if err != nil {
 			return nil, err
 		}
@@ -267,5 +271,6 @@ func (p *Plenc) CodecForTypeRegistry(registry plenccodec.CodecRegistry, typ refl
 		return nil, fmt.Errorf("could not find or create a codec for %s", typ)
 	}
 
+	verifhook.Yield("store")
 	return registry.StoreOrSwap(typ, tag, c), nil
 }
